@@ -172,6 +172,109 @@ RULE = (
     'the sequential reference (hence each other). Non-trivial: >=1 completion-order inversion or >=1 preprocessor rejection; distinct by (family, inputs, config).'
 )
 
+# ------------------------------------------------------------------------- Server vs AsyncServer
+
+
+@st.composite
+def server_spec(draw):
+    from . import serverlib as sv
+
+    tree = draw(sv.tree_strategy(depth=draw(st.integers(0, 1)), batch=True))
+    nreq = draw(st.integers(1, 10))
+    reqs = {str(r): draw(sv.plan_strategy(tree, p_fail=0.3, p_delay=0.8)) for r in range(nreq)}
+    ncallers = draw(st.integers(1, 4))
+    callers = [[] for _ in range(ncallers)]
+    stream_rids = []
+    for rid in range(nreq):
+        o = draw(st.integers(0, ncallers))
+        if o < ncallers:
+            tsel = draw(st.sampled_from(['long', 'long', 'short']))
+            timeout = 'long' if tsel == 'long' else draw(st.sampled_from([0.0005, 0.003, 0.012, 0.05]))
+            callers[o].append({'rid': rid, 'timeout': timeout, 'bp': draw(st.booleans()), 'think': draw(st.sampled_from([0, 0, 0.001, 0.01]))})
+        else:
+            stream_rids.append(rid)
+    return {
+        'tree': tree,
+        'capacity': draw(st.sampled_from([1, 1, 2, 4, 32])),
+        'reqs': reqs,
+        'callers': [c for c in callers if c],
+        'streams': [{'rids': stream_rids, 'abandon': None, 'cons_delay': 0}] if stream_rids else [],
+        'sched': draw(sched_strategy(max_len=150, est_steps=3000, depth=3)),
+    }
+
+
+def run_server_pair(spec):
+    from . import c02
+    from . import serverlib as sv
+
+    tree = spec['tree']
+    reqs = {int(k): v for k, v in spec['reqs'].items()}
+    sides = {}
+    for name, runner in (('Server', sv.run_server), ('AsyncServer', sv.run_async_server)):
+        obs = runner(spec)
+        try:
+            hang_check(obs.out)
+        except Violation as v:
+            v.detail = f'[{name}] ' + v.detail
+            v.signature = [v.signature, name]
+            raise
+        if obs.enter_exc is not None:
+            raise Violation('enter_failed', f'[{name}] {obs.enter_exc!r}', signature=['enter', name])
+        if obs.exit_exc is not None:
+            raise Violation('exit_raised', f'[{name}] {obs.exit_exc!r}', signature=['exit_raised', name])
+        poison = sv.batch_poison_map(tree, reqs, obs.log)
+        recs = list(obs.calls)
+        for s in obs.streams:
+            term = s.get('term')
+            if isinstance(term, tuple):
+                raise Violation('stream_raised', f'[{name}] stream(return_exceptions=True) raised {type(term[1]).__name__}: {term[1]}', signature=['stream_raised', name, type(term[1]).__name__])
+            if len(s['items']) != len(s['spec']['rids']):
+                raise Violation('stream_count', f"[{name}] stream of {len(s['spec']['rids'])} inputs gave {len(s['items'])} outputs", signature=['stream_count', name])
+            for k, (x, y) in enumerate(s['items']):
+                xr = sv.unpack(x)[0]
+                if xr != s['spec']['rids'][k]:
+                    raise Violation('stream_order', f'[{name}] position {k}: input {xr}', signature=['stream_order', name])
+                from mpservice import TimeoutError as MpTimeoutError
+
+                kind = 'timeout' if isinstance(y, MpTimeoutError) else ('exc' if isinstance(y, BaseException) else 'value')
+                recs.append({'rid': xr, 'timeout': 'long', 'bp': False, 't0': s['t0'], 't1': s['t1'], 'kind': kind, 'payload': y})
+        for rec in recs:
+            rec['forced'] = poison.get(rec['rid'])
+            bad = c02.judge_call(rec, tree, reqs, spec['capacity'], {'max_backlog': obs.max_backlog})
+            if bad:
+                raise Violation(('async_' if name == 'AsyncServer' else 'sync_') + bad[0], f'[{name}] ' + bad[1], signature=[bad[0], name])
+        sides[name] = {r['rid']: r['kind'] for r in recs}
+    kinds = sorted(set(sides['Server'].values()) | set(sides['AsyncServer'].values()))
+    waited = any(k in ('backlogfull', 'timeout') for k in kinds)
+    return CaseInfo(
+        nontrivial=len(reqs) >= 2 and (waited or any(p['f'] or p['pf'] for p in reqs.values())),
+        descriptor=['server', tree, spec['capacity'], spec['reqs'], spec['callers'], spec['streams']],
+        classes=tuple(['server_pair', 'tree_' + tree['t'], f"cap{min(spec['capacity'], 4)}"] + ['saw_' + k for k in kinds]),
+        metrics={},
+        sample={'tree': tree, 'capacity': spec['capacity'], 'sync': sides['Server'], 'async': sides['AsyncServer']},
+    )
+
+
+def _warm_server():
+    from . import c02
+
+    c02._warm()
+    spec = {
+        'tree': {'t': 'w', 'tag': 'A', 'n': 2, 'pre': False}, 'capacity': 1,
+        'reqs': {'0': {'d': {'A': 0.01}, 'f': {}, 'pf': {}, 'r': 0}, '1': {'d': {}, 'f': {}, 'pf': {}, 'r': 0}},
+        'callers': [[{'rid': 0, 'timeout': 'long', 'bp': False, 'think': 0}], [{'rid': 1, 'timeout': 0.003, 'bp': False, 'think': 0}]],
+        'streams': [], 'sched': {'kind': 'default'},
+    }
+    for _ in range(2):
+        try:
+            run_server_pair(spec)
+        except Violation:
+            pass
+
+
 FAMILIES = [
     Family('F1_streams', 'sim', spec_strategy(), run_case, quick=1500, thorough=80_000, shards_quick=8, rule=RULE, setup=_warm),
+    Family('F2_servers', 'sim', server_spec(), run_server_pair, quick=1200, thorough=60_000, shards_quick=8,
+           rule='Server.call/stream vs AsyncServer.call/stream on identical generated servlet trees, requests (delays, failures), caller scripts (short/long timeouts, backpressure on/off), capacity 1-32: '
+           'every outcome on either side must be what the reference evaluator allows (same exception classes incl. ServerBacklogFull vs TimeoutError rules). Non-trivial: >=2 requests and a failure or a wait at a full server.', setup=_warm_server),
 ]
